@@ -67,6 +67,9 @@ var c15Layouts = []c15Layout{
 	// one makes Sanitize responsible for it
 	{"create-doubled-quote", func(u, p string) string { return "CREATE USER " + qid(u) + " WITH PASSWORD " + strings.Replace(p, "\\'", "''", -1) }, ""},
 	{"set-doubled-quote", func(u, p string) string { return "SET PASSWORD FOR " + qid(u) + " = " + strings.Replace(p, "\\'", "''", -1) + "; SHOW USERS" }, ""},
+	{"set-backquoted", func(u, p string) string { return "SET PASSWORD FOR `" + strings.Replace(u, "`", "", -1) + "` = " + p }, ""},
+	{"create-backquoted", func(u, p string) string { return "CREATE USER `" + strings.Replace(u, "`", "", -1) + "` WITH PASSWORD " + p }, ""},
+	{"set-bracketed", func(u, p string) string { return "SET PASSWORD FOR [" + strings.Replace(u, "]", "", -1) + "] = " + p }, ""},
 	{"create-equals", func(u, p string) string { return "CREATE USER " + qid(u) + " WITH PASSWORD = " + p }, ""},
 	{"create-equals-tight", func(u, p string) string { return "CREATE USER " + qid(u) + " WITH PASSWORD=" + p + " WITH ALL PRIVILEGES" }, ""},
 	{"create-parens", func(u, p string) string { return "CREATE USER " + qid(u) + " WITH PASSWORD (" + p + ")" }, ""},
